@@ -12,7 +12,7 @@ from ..core import Ctx, Outcome, Violation
 from ..terms import clear_typelib_caches
 
 _N = [0]
-FORMS = ["function", "method", "instance", "class", "closure", "method_after_unbound", "slotted_instance_after_dead", "class_on_wrapped_base"]
+FORMS = ["function", "method", "instance", "class", "closure", "method_after_unbound", "slotted_instance_after_dead", "class_on_wrapped_base", "decorated_function"]
 CLASS_FORMS = ("class", "class_new", "class_on_wrapped_base")
 
 
@@ -62,6 +62,12 @@ def build_callable(sig, form, toks):
         body_ann = "".join(f"    p{k[1:]}: B{k[1:]}\n" for k in sorted(enums))
     if form == "function":
         src = f"def f({params}):\n    'doc of f'\n    return {ret}\n"
+    elif form == "decorated_function":
+        # a function under a decorator that uses functools.wraps (so it carries __wrapped__): what is bound is the callable that
+        # was given -- its outer layer runs (and leaves a mark in the result)
+        src = (f"import functools\ndef deco(fn):\n    @functools.wraps(fn)\n    def outer(*a, **k):\n        r = fn(*a, **k)\n"
+               f"        r['__outer__'] = True\n        return r\n    return outer\n"
+               f"@deco\ndef f({params}):\n    'doc of f'\n    return {ret}\n")
     elif form == "method":
         src = f"class C:\n    def m(self, {params}):\n        'doc of m'\n        return {ret}\nf = C().m\n"
     elif form == "method_after_unbound":
@@ -160,7 +166,7 @@ def _get_built(sig, form, entry):
                 g = binding.bind(f)
             else:
                 g = binding.wrap(f)
-                if form in ("function", "method", "closure", "method_after_unbound"):
+                if form in ("function", "method", "closure", "method_after_unbound", "decorated_function"):
                     meta = (getattr(g, "__name__", None) == getattr(f, "__name__", None)
                             and getattr(g, "__doc__", None) == getattr(f, "__doc__", None)
                             and getattr(g, "__wrapped__", None) is f)
@@ -196,6 +202,9 @@ def observe(sig, call, form, entry):
         got = g(*args, **kwargs)
         if form in CLASS_FORMS:
             got = got.got
+        if form == "decorated_function" and not got.get("__outer__"):
+            ev["res"] = "OuterLayerSkipped"          # the callable that ran is not the one that was bound
+            return ev, src
     except TypeError:
         ev["res"] = "TypeError"
         return ev, src
